@@ -77,4 +77,33 @@ ListingVerdict(prog, img, lst) ==
      ELSE IF \E i \in 1..Len(prog) : Bad(i)
           THEN "listing line disagrees with the image (directive " \o ToString(CHOOSE i \in 1..Len(prog) : Bad(i)) \o ")"
      ELSE ""
+
+\* The listing judged on its own terms: a reader who decodes the binary AT THE LISTED OFFSETS must find exactly
+\* the listed instructions and data, in the listed order, with nothing but zeros in between and after.
+\* lprog = the directives as the listing shows them, lst = [off, size, has, shown] per line.
+ListingDecodeVerdict(lprog, img, lst) ==
+  LET N == Len(img)
+      B(i) == IF i < N THEN img[i + 1] ELSE 0
+      Emits(i) == lprog[i].k # "lab"
+      Zero(a, b) == \A j \in a..(b - 1) : B(j) = 0
+      LineBad(i) ==
+        LET d == lprog[i]  l == lst[i] IN
+        CASE d.k = "lab" -> FALSE
+          [] d.k = "data" -> l.size # 4 \/ l.off % 4 # 0 \/ l.off + 4 > N \/ WordOfBytes(<<B(l.off), B(l.off + 1), B(l.off + 2), B(l.off + 3)>>) # d.v
+          [] d.k = "opr" -> l.size # 1 \/ l.off >= N \/ B(l.off) # 13 * 16 + d.c
+          [] OTHER -> l.size < 1 \/ l.off + l.size > N
+                      \/ LET c == Decode([j \in 1..l.size |-> B(l.off + j - 1)]) IN
+                         ~c.ok \/ c.opc # d.op \/ (d.k = "imm" /\ c.val # d.v) \/ (d.k = "ref" /\ l.has /\ c.val # l.shown)
+      em == SelectSeq([i \in 1..Len(lprog) |-> i], Emits)
+      OrderBad(k) == LET i == em[k] IN
+                     IF k = 1 THEN ~Zero(0, lst[i].off)
+                     ELSE LET p == em[k - 1] IN lst[i].off < lst[p].off + lst[p].size \/ ~Zero(lst[p].off + lst[p].size, lst[i].off)
+      endpos == IF em = <<>> THEN 0 ELSE lst[em[Len(em)]].off + lst[em[Len(em)]].size
+  IN IF Len(lst) # Len(lprog) THEN "listing lines do not match its directives"
+     ELSE IF \E i \in 1..Len(lprog) : LineBad(i)
+          THEN "the binary at the listed offset is not the listed item (line " \o ToString(CHOOSE i \in 1..Len(lprog) : LineBad(i)) \o ")"
+     ELSE IF \E k \in 1..Len(em) : OrderBad(k)
+          THEN "listed items overlap, are out of order or are separated by non-zero bytes (line " \o ToString(em[CHOOSE k \in 1..Len(em) : OrderBad(k)]) \o ")"
+     ELSE IF ~Zero(endpos, N) \/ N - endpos >= 4 THEN "bytes after the last listed item are not padding"
+     ELSE ""
 =============================================================================
